@@ -2,6 +2,7 @@ package main
 
 import (
 	"fmt"
+	"go/token"
 	"os"
 	"go/types"
 	"sort"
@@ -70,7 +71,6 @@ var guardedTable = []guardedField{
 	{"pkg/rpc", "NetworkMachine", "machClock", "clockMx", false, "updated by updateClock"},
 	{"pkg/rpc", "NetworkMachine", "queueTick", "clockMx", false, "updated by updateClock"},
 	{"pkg/rpc", "NetworkMachine", "machTick", "clockMx", false, "updated by updateClock"},
-	{"pkg/rpc", "NetworkMachine", "activeState", "clockMx", false, "updated by updateClock"},
 	{"pkg/rpc", "NetworkMachine", "tracers", "tracersMx", false, "TracerBind/Detach"},
 	{"pkg/rpc", "NetworkMachine", "handlers", "handlersMx", false, "bind/detach"},
 	{"pkg/rpc", "NetworkMachine", "logEntries", "logEntriesLock", false, "log()"},
@@ -212,7 +212,7 @@ func (c *Ctx) checkGuardedFull(la *LockAnalysis, rule string, filter func(a acce
 			continue
 		}
 		spec := specs[a.FID]
-		alts := outerLockAlt[a.FID]
+		alts := c.validAlts(la, a.FID)
 		kind := "read"
 		if a.Write {
 			kind = "write"
@@ -284,6 +284,9 @@ func init() {
 			return write || !configFields[fid]
 		})
 		c.floor("C12.guard", 150)
+		c.rule("C12.esc", "a slice or map loaded from a guarded field is used only inside the critical section (or cloned): it is not returned to unlocked callers nor used after the lock is released, because writers append/delete in place")
+		c.checkEscapes(la, "C12.esc")
+		c.floor("C12.esc", 40)
 		c.note("lock analysis contexts: %d", len(la.sums))
 		if d := os.Getenv("AMCHECK_LOCKDUMP"); d != "" {
 			la.debugDump(d)
@@ -292,3 +295,263 @@ func init() {
 }
 
 var _ = strings.Contains
+
+// ---- C12.esc: guarded reference-typed fields do not escape their lock ----
+
+// Fields whose backing store is replaced wholesale and never mutated in
+// place (or documented as shared): a holder of the old header cannot observe
+// a concurrent write through it.
+var escapeExempt = map[string]string{
+	"pkg/machine.Machine.activeStates":     "replaced by setActiveStates with a fresh clone; in-place mutation is excluded by C01.imm",
+	"pkg/machine.Machine.stateNames":       "configuration field, replaced wholesale",
+	"pkg/machine.Machine.stateNamesExport": "documented SHARED copy, replaced wholesale",
+	"pkg/machine.Machine.schema":           "configuration field, replaced wholesale by SetSchema",
+	"pkg/machine.Machine.groups":           "configuration field",
+	"pkg/machine.Machine.groupsOrder":      "configuration field",
+	"pkg/machine.Machine.clock":            "handed to the subscription manager by design (C06.alias); ticks are read under activeStatesMx",
+	"pkg/rpc.NetworkMachine.machTime":      "replaced wholesale by updateClock",
+}
+
+func isRefType(t types.Type) bool {
+	switch t.Underlying().(type) {
+	case *types.Slice, *types.Map:
+		return true
+	}
+	return false
+}
+
+// derivedUses: instructions that use the loaded value v or a value derived
+// from it through phis, re-slices, type changes and local variables.
+func derivedUses(v ssa.Value) []ssa.Instruction {
+	seen := map[ssa.Value]bool{}
+	var out []ssa.Instruction
+	var walk func(v ssa.Value)
+	walk = func(v ssa.Value) {
+		if seen[v] {
+			return
+		}
+		seen[v] = true
+		refs := v.Referrers()
+		if refs == nil {
+			return
+		}
+		for _, r := range *refs {
+			switch x := r.(type) {
+			case *ssa.Phi:
+				walk(x)
+			case *ssa.Slice:
+				if x.X == v {
+					walk(x)
+				}
+			case *ssa.ChangeType:
+				walk(x)
+			case *ssa.Store:
+				if x.Val == v {
+					if al, ok := x.Addr.(*ssa.Alloc); ok {
+						// local variable: follow its loads
+						for _, rr := range *al.Referrers() {
+							if u, ok := rr.(*ssa.UnOp); ok && u.Op == token.MUL {
+								walk(u)
+							}
+						}
+						continue
+					}
+					out = append(out, r) // stored elsewhere: ownership transfer, reported as "store"
+				}
+			default:
+				out = append(out, r)
+			}
+		}
+	}
+	walk(v)
+	return out
+}
+
+func (c *Ctx) checkEscapes(la *LockAnalysis, rule string) {
+	fields, specs := c.guardedFields()
+	// accesses already reported by the guarded-by rule are not reported twice
+	already := map[string]bool{}
+	for _, o := range c.Obligs {
+		if o.Status == "violated" && strings.HasSuffix(o.Rule, ".guard") {
+			parts := strings.Fields(o.Key)
+			if len(parts) == 3 {
+				already[parts[0]+"|"+parts[2]] = true
+			}
+		}
+	}
+	type agg struct {
+		bad string
+		pos token.Pos
+		n   int
+	}
+	res := map[string]*agg{}
+	var keys []string
+	for _, f := range c.Funcs {
+		if !la.funcs[f] {
+			continue
+		}
+		if _, ex := lockExemptFuncs[funcKey(topFunc(f))]; ex {
+			continue
+		}
+		for _, b := range f.Blocks {
+			for _, ins := range b.Instrs {
+				u, ok := ins.(*ssa.UnOp)
+				if !ok || u.Op != token.MUL {
+					continue
+				}
+				fld := fieldOf(u.X)
+				fid, ok := fields[fld]
+				if !ok || !isRefType(fld.Type()) {
+					continue
+				}
+				if _, ex := escapeExempt[fid]; ex {
+					continue
+				}
+				if already[funcKey(f)+"|"+fid] {
+					continue
+				}
+				spec := specs[fid]
+				key := funcKey(f) + " uses " + fid + " only under its lock"
+				r := res[key]
+				if r == nil {
+					r = &agg{}
+					res[key] = r
+					keys = append(keys, key)
+				}
+				r.n++
+				if r.pos == token.NoPos {
+					r.pos = ins.Pos()
+				}
+				for _, use := range derivedUses(u) {
+					if _, isRet := use.(*ssa.Return); isRet {
+						// returning the guarded header to a caller that holds the lock is fine
+						esc := false
+						for _, hr := range la.heldAt(use) {
+							if hr.ctx.entry[spec.Lock] == 0 && !(spec.OwnerRead && hr.ctx.entry[qLock] != 0) {
+								esc = true
+							}
+						}
+						if esc && r.bad == "" {
+							r.bad = "returned to callers that do not hold " + shortLock(spec.Lock) + " without cloning"
+							r.pos = use.Pos()
+						}
+						continue
+					}
+					if _, isStore := use.(*ssa.Store); isStore {
+						continue
+					}
+					if _, isDbg := use.(*ssa.DebugRef); isDbg {
+						continue
+					}
+					for _, hr := range la.heldAt(use) {
+						if _, ok := hr.held[spec.Lock]; ok {
+							continue
+						}
+						if spec.OwnerRead {
+							if _, q := hr.held[qLock]; q {
+								continue
+							}
+						}
+						altOK := false
+						for _, alt := range c.validAlts(la, fid) {
+							if hr.held[alt] == 'W' {
+								altOK = true
+							}
+						}
+						if altOK {
+							continue
+						}
+						if r.bad == "" {
+							r.bad = fmt.Sprintf("loaded under the lock but used at %s after it was released (held %s)", c.pos(use.Pos()), hr.held)
+							r.pos = use.Pos()
+						}
+					}
+				}
+			}
+		}
+	}
+	sort.Strings(keys)
+	for _, k := range keys {
+		r := res[k]
+		if r.bad == "" {
+			c.ok(rule, k, r.pos, fmt.Sprintf("%d load(s); every use of the loaded header is inside the critical section or goes through a copy", r.n))
+		} else {
+			c.fail(rule, k, r.pos, "guarded slice/map escapes its critical section: "+r.bad+" (writers append/delete in place)")
+		}
+	}
+}
+
+// validAlts: the outer-lock alternative of a subscription index is sound only
+// if every writer of that index runs with the outer lock held (any mode).
+// This is verified from the analysed program, not assumed.
+var altCache = map[*LockAnalysis]map[string][]string{}
+
+func (c *Ctx) validAlts(la *LockAnalysis, fid string) []string {
+	if m, ok := altCache[la]; ok {
+		return m[fid]
+	}
+	m := map[string][]string{}
+	altCache[la] = m
+	fields, _ := c.guardedFields()
+	inv := map[string]*types.Var{}
+	for f, id := range fields {
+		inv[id] = f
+	}
+	sel := map[*types.Var]string{}
+	for id := range outerLockAlt {
+		if f := inv[id]; f != nil {
+			sel[f] = id
+		}
+	}
+	// validity is decided per (field, alternative lock): the alternative of
+	// one owner family (Machine vs NetworkMachine) is judged only by the
+	// writers running on behalf of that family - a Subscriptions object
+	// belongs to exactly one owner.
+	family := func(s *lsSummary) string {
+		// nearest enclosing owner: the first caller up the chain whose receiver
+		// is a Machine-side or a NetworkMachine-side type
+		for x := s; x != nil; x = x.parent {
+			f := topFunc(x.key.fn)
+			if recv := f.Signature.Recv(); recv != nil {
+				if n := namedOf(recv.Type()); n != nil {
+					switch n.Obj().Name() {
+					case "Machine", "Transition", "DefaultRelationsResolver":
+						return "pkg/machine."
+					case "NetworkMachine", "NetMachInternal":
+						return "pkg/rpc."
+					}
+				}
+			}
+		}
+		return "pkg/machine."
+	}
+	bad := map[string]bool{}
+	for _, a := range la.accesses(sel) {
+		if !a.Write {
+			continue
+		}
+		if _, ex := lockExemptFuncs[funcKey(topFunc(a.Fn))]; ex {
+			continue
+		}
+		for _, hr := range a.Held {
+			fam := family(hr.ctx)
+			for _, alt := range outerLockAlt[a.FID] {
+				if !strings.HasPrefix(alt, fam) {
+					continue
+				}
+				if _, ok := hr.held[alt]; !ok && !bad[a.FID+"|"+alt] {
+					bad[a.FID+"|"+alt] = true
+					c.note("outer-lock alternative %s disabled for %s: writer %s runs without it (context %s, held %s)", shortLock(alt), a.FID, funcKey(a.Fn), la.chain(hr.ctx), hr.held)
+				}
+			}
+		}
+	}
+	for id, alts := range outerLockAlt {
+		for _, alt := range alts {
+			if !bad[id+"|"+alt] {
+				m[id] = append(m[id], alt)
+			}
+		}
+	}
+	return m[fid]
+}
